@@ -56,6 +56,12 @@ func (core *JApiCore) drainCurrentScanner() *jerr.JApiError {
 
 // simply decides which function to call based on lexeme type
 func (core *JApiCore) next(lexeme scanner.Lexeme) *jerr.JApiError {
+	if core.currentDirective == nil && lexemeBelongsToDirective(lexeme) {
+		// There is no directive to attach the lexeme to, i.e. at the very beginning
+		// of a file or right after the closing parenthesis.
+		return core.japiError(fmt.Sprintf("%s without a directive", lexeme.Type().String()), lexeme.Begin())
+	}
+
 	switch lexeme.Type() {
 	case scanner.Keyword:
 		return core.processKeyword(lexeme)
@@ -81,6 +87,17 @@ func (core *JApiCore) next(lexeme scanner.Lexeme) *jerr.JApiError {
 	default:
 		return core.japiError("Unknown lexeme type ("+lexeme.Type().String()+")", lexeme.Begin())
 	}
+}
+
+// lexemeBelongsToDirective returns true for lexemes that are pieces of the
+// directive being read (everything except a keyword and a closing parenthesis).
+func lexemeBelongsToDirective(lexeme scanner.Lexeme) bool {
+	switch lexeme.Type() { //nolint:exhaustive // Other lexemes don't need a directive.
+	case scanner.Parameter, scanner.Annotation, scanner.Schema, scanner.Text, scanner.Json, scanner.Enum,
+		scanner.ContextExplicitOpening:
+		return true
+	}
+	return false
 }
 
 func (core *JApiCore) processKeyword(lexeme scanner.Lexeme) *jerr.JApiError {
